@@ -9,9 +9,10 @@ import (
 
 func init() {
 	register(&Property{ID: "C14", Run: runC14,
-		Explain: "Shutdown decided as a blocking-operation discipline over the whole library: (R14.1) every channel operation in non-generated, non-test code is enumerated on every run and must fall into a checkable safe class — S1 select with default or with a Done() arm of the instance context (field PubSub.ctx/Subscription.ctx, a context derived from it, the constructor's ctx parameter, or a context parameter every caller fills with one); selects that hand work to the instance (a send on a channel owned by the PubSub/router/discovery objects) need the instance Done arm, pure waits may instead rely on the caller's context or a timer arm; S2 reply send on a channel every make of which has capacity >= 1 and at most one send per path, or unbuffered with a requester that receives unconditionally after a successful hand-off; S2b sized fan-in; S3 reply receive after a hand-off whose Done arms return; S4 semaphore release after the matching acquire; S5 tracer-owned consumers (named exemption); S6 timer channels — anything else is a violation; (R14.2) every request handler and hand-off thunk replies exactly once on every path; (R14.3) goroutine inventory: every `go` target's unbounded loops contain an instance-context escape that returns (named exemptions with reasons: tracer writers, stream-read waiters released by closing the host's streams, user callbacks); (R14.4) on the way down the event loop's deferred cleanup closes every queue, clears p.peers and stops the seen-cache sweeper; closes are once-only; (R14.6) no function returns with a mutex it locked still held (deferred unlock or unlock on every path) — otherwise later API calls block forever. NOT decided: 'bounded time' as a number, scheduler fairness, blocking inside dependencies.",
+		Explain: "Shutdown decided as a blocking-operation discipline over the whole library: (R14.1) every channel operation in non-generated, non-test code is enumerated on every run and must fall into a checkable safe class — S1 select with default or with a Done() arm of the instance context (field PubSub.ctx/Subscription.ctx, a context derived from it, the constructor's ctx parameter, or a context parameter every caller fills with one); selects that hand work to the instance (a send on a channel owned by the PubSub/router/discovery objects) need the instance Done arm, pure waits may instead rely on the caller's context or a timer arm; S2 reply send on a channel every make of which has capacity >= 1 and at most one send per path, or unbuffered with a requester that receives unconditionally after a successful hand-off; S2b sized fan-in; S3 reply receive after a hand-off whose Done arms return; S4 semaphore release after the matching acquire; S5 tracer-owned consumers (named exemption); S6 timer channels — anything else is a violation; (R14.2) every request handler and hand-off thunk replies exactly once on every path; (R14.3) goroutine inventory: every `go` target's unbounded loops contain an instance-context escape that returns (named exemptions with reasons: tracer writers, stream-read waiters released by closing the host's streams, user callbacks); (R14.4) on the way down the event loop's deferred cleanup closes every queue, clears p.peers and stops the seen-cache sweeper; closes are once-only; (R14.6) no function returns with a mutex it locked still held (deferred unlock or unlock on every path) — otherwise later API calls block forever. (R14.7) application validators run under a context derived from the instance context, never a caller-supplied one. NOT decided: 'bounded time' as a number, scheduler fairness, blocking inside dependencies.",
 		Assume:  []string{"the host's streams are closed on shutdown (premise of C14)", "user callbacks return"},
 		Mutants: []Mutant{
+			{Name: "inline-validators-background-context", File: "validation.go", Old: "\t\tswitch val.validateMsg(v.p.ctx, src, msg) {", New: "\t\tswitch val.validateMsg(context.Background(), src, msg) {", Expect: "R14.7"},
 			{Name: "publishbatch-bare-send", File: "pubsub.go", Old: "\tselect {\n\tcase p.sendMessageBatch <- messageBatchAndPublishOptions{\n\t\tmessages: batch.take(),\n\t\topts:     publishOptions,\n\t}:\n\tcase <-p.ctx.Done():\n\t\treturn p.ctx.Err()\n\t}", New: "\tp.sendMessageBatch <- messageBatchAndPublishOptions{\n\t\tmessages: batch.take(),\n\t\topts:     publishOptions,\n\t}", Expect: "R14.1"},
 			{Name: "handoff-only-caller-ctx", File: "topic.go", Old: "\tcase <-t.p.ctx.Done():\n\t\treturn nil, t.p.ctx.Err()\n\tcase <-ctx.Done():\n\t\treturn nil, ctx.Err()\n\t}\n\terr := t.p.val.ValidateLocal(msg)", New: "\tcase <-ctx.Done():\n\t\treturn nil, ctx.Err()\n\t}\n\terr := t.p.val.ValidateLocal(msg)", Expect: "R14.1"},
 			{Name: "listpeers-reply-abandoned", File: "pubsub.go", Old: "\tcase <-p.ctx.Done():\n\t\treturn nil\n\t}\n\treturn <-out\n}\n\n// BlacklistPeer", New: "\tcase <-p.ctx.Done():\n\t\treturn nil\n\t}\n\tselect {\n\tcase peers := <-out:\n\t\treturn peers\n\tcase <-p.ctx.Done():\n\t\treturn nil\n\t}\n}\n\n// BlacklistPeer", Expect: "R14.1"},
@@ -330,6 +331,7 @@ func runC14(c *RuleCtx) {
 	}
 	// ---------- R14.6 balanced locks
 	checkBalancedLocks(c)
+	checkValidatorContext(c)
 	c.Min["R14.1"] = 110
 	c.Min["R14.2"] = 14
 	c.Min["R14.3"] = 25
@@ -820,4 +822,81 @@ func checkBalancedLocks(c *RuleCtx) {
 	if n < 40 {
 		c.Undecided("R14.6", "lock sites", "inventory", nil, "fewer locking functions than known ("+itoa(n)+")")
 	}
+}
+
+// R14.7: application validators are handed a context so that they can stop waiting when the instance shuts down; a
+// Publish call sits inside them (local validation is synchronous) and returns only when they do. The context every
+// validator runs under therefore derives from the instance context (PubSub.ctx, possibly through
+// context.WithCancel/WithTimeout/WithDeadline), never from a caller-supplied one.
+func checkValidatorContext(c *RuleCtx) {
+	p := c.P
+	var fromInstance func(f *Func, v *V, depth int) bool
+	fromInstance = func(f *Func, v *V, depth int) bool {
+		if v == nil || depth > 4 {
+			return false
+		}
+		if v.IsField("PubSub.ctx") {
+			return true
+		}
+		if v.Kind == "tuple" && v.Name == "0" && len(v.Args) == 1 {
+			return fromInstance(f, v.Args[0], depth+1)
+		}
+		if v.Kind == "call" && (v.Name == "context.WithCancel" || v.Name == "context.WithTimeout" || v.Name == "context.WithDeadline" || v.Name == "context.WithValue") && len(v.Args) >= 1 {
+			return fromInstance(f, v.Args[0], depth+1)
+		}
+		return false
+	}
+	n := 0
+	for _, cs := range p.AllSites("(*validatorImpl).validateMsg") {
+		if len(cs.Call.Args) < 1 {
+			continue
+		}
+		n++
+		v := p.R(cs.Fn).Val(cs.Call.Args[0])
+		ok := fromInstance(cs.Fn, v, 0)
+		if !ok {
+			// through local copies
+			for _, ch := range p.R(cs.Fn).Sources(cs.Call.Args[0]) {
+				if ch.Leaf != nil && fromInstance(cs.Fn, ch.Leaf, 0) {
+					ok = true
+				} else {
+					ok = false
+					break
+				}
+			}
+		}
+		c.Check(ok, "R14.7", cs.Fn.Root().Name, "validators run under the instance context", cs.Call, "derived from PubSub.ctx", "the context handed to the validators is "+v.String()+", which does not derive from the instance context: a validator waiting on it does not notice shutdown, and the Publish (or validation worker) that called it never returns")
+	}
+	if f := c.MustFn("R14.7", "(*validatorImpl).validateMsg"); f != nil {
+		for _, cs := range p.Sites(f, false, "field:validatorImpl.validate") {
+			if len(cs.Call.Args) < 1 {
+				continue
+			}
+			n++
+			ok := false
+			for _, ch := range p.R(f).Sources(cs.Call.Args[0]) {
+				l := ch.Leaf
+				for d := 0; l != nil && d < 4; d++ {
+					if isParam(f, 0)(l) {
+						ok = true
+						break
+					}
+					if l.Kind == "tuple" && len(l.Args) == 1 {
+						l = l.Args[0]
+						continue
+					}
+					if l.Kind == "call" && strings.HasPrefix(l.Name, "context.With") && len(l.Args) >= 1 {
+						l = l.Args[0]
+						continue
+					}
+					break
+				}
+			}
+			c.Check(ok, "R14.7", f.Name, "the validator receives the context validateMsg was given", cs.Call, "ctx parameter or a context derived from it", "validateMsg hands the application validator a context that does not derive from its own ctx parameter")
+		}
+	}
+	if n < 4 {
+		c.Undecided("R14.7", "validator contexts", "inventory", nil, "fewer validator invocations than known: "+itoa(n))
+	}
+	c.Min["R14.7"] = 4
 }
